@@ -15,7 +15,7 @@ impl Prop for Histories {
         400
     }
     fn cases(&self, tier: Tier) -> u64 {
-        tier.pick(150_000, 4_000_000)
+        tier.pick(150_000, 10_000_000)
     }
     fn generate(&self, g: &mut Gen) -> History {
         gen_history(
